@@ -104,3 +104,9 @@ theorem C14_shapes :
     of_gf_2_4_opt_mul_table_cols = 256 ∧ of_gf_2_8_mul_table_rows = 256 ∧ of_gf_2_8_mul_table_cols = 256 ∧
     of_gf_mul_table_rows = 256 ∧ of_gf_mul_table_cols = 256 ∧ RS_GF_BITS = 8 ∧ RS_POLY = "101110001" := by
   decide
+
+
+/-- the tables of the GF(2^8) codec are generated at first use by `of_rs_init()`, which is exported and may run again: a second
+generation (performed on the current sources this run) leaves every entry of the exponential, logarithm, inverse and multiplication
+tables as it was — so the statements above also hold after any number of regenerations -/
+theorem C14_regeneration_idempotent : RS_REGEN_MISMATCHES = 0 := by decide
